@@ -5,7 +5,10 @@
 (*                                                                         *)
 (*   main.go -> internal/cmd/mockery.go  NewRootCmd / Execute (cobra)      *)
 (*     Start          which command: default | showconfig | version | help *)
-(*                    | unknown flag | unknown sub-command mockery.go:26-61 *)
+(*                    | init | migrate | unknown flag | unknown sub-command *)
+(*                                                        mockery.go:26-61 *)
+(*     InitCmd        `init <pkg>`: O_EXCL create of the target  init.go   *)
+(*     MigrateCmd     `migrate`: v2 file found -> --outfile     migrate.go *)
 (*     LoadSources    NewRootConfig: locate the config file (--config,     *)
 (*                    MOCKERY_CONFIG, upward search), defaults < MOCKERY_* *)
 (*                    < file < flags                     config.go:120-226 *)
@@ -54,8 +57,12 @@
 (*     ShouldGenerate chain) are restated with a pointer.                  *)
 (*                                                                         *)
 (* WORLD (w, chosen in Init): module example.com/w laid out as Layout.tla  *)
-(* says -- packages a (apk; A1, A2), a/b (bpk; B1) below it, k (kpk; K1,   *)
-(* K2) -- a configuration tree of one of three SHAPES, a layout (where the *)
+(* says -- packages a (apk; A1, A2), a/b (bpk; B1) below it, a/b/c (cpk;   *)
+(* C1) below that (two recursion levels), k (kpk; K1, K2) -- a             *)
+(* configuration tree of one of four SHAPES (S4: a/b written in            *)
+(* `packages:` below a recursive a), template-data and the per-file        *)
+(* parameters template / formatter / force-file-write /                    *)
+(* require-template-schema-exists at any level, a layout (where the        *)
 (* config file is and how it is found), the command line, pre-existing     *)
 (* output files, at most one fault, optionally a build-tagged declaration. *)
 (*                                                                         *)
@@ -64,8 +71,11 @@
 (* level from --log-level / MOCKERY_LOG_LEVEL / the file (RunStart;        *)
 (* SourcesLayered; no other influence), `version`, `--help`, unknown flag  *)
 (* or sub-command (Start; OtherCommandsTouchNothing), build-tags /         *)
-(* MOCKERY_BUILD_TAGS (Visible, NextPkg), the double Initialize            *)
-(* (PassesAgree).  mockery v3 has no version-check network call (the only  *)
+(* MOCKERY_BUILD_TAGS (Visible, NextPkg; there is no --build-tags flag),   *)
+(* an empty config file / one without `packages` (cfgkind; a run fails     *)
+(* with "no packages specified", showconfig shows the empty table), no     *)
+(* config file at all, `init` / `migrate` (InitAsContract,                 *)
+(* MigrateAsContract), the double Initialize (PassesAgree).  mockery v3 has no version-check network call (the only  *)
 (* http.Get downloads http(s):// templates), so there is nothing to model. *)
 (***************************************************************************)
 EXTENDS MockerySkeleton, Json
@@ -74,6 +84,8 @@ CONSTANTS Worlds,          \* set of world records explored (MockeryMC)
           StopAtFailure    \* TRUE: the run returns at the first failing file (what the code does)
 
 LY == INSTANCE Layout
+IC == INSTANCE InitCmdContract WITH DocInit <- << >>, DocTable <- << >>      \* C18: only the tree-level promises are used here
+MG == INSTANCE MigrateContract                                              \* C19: likewise
 TR == INSTANCE TemplateResolve WITH Cap <- 20, MustOk <- 18, Horizon <- 22, Interleave <- FALSE,
         case <- [id |-> "-"], vals <- << >>, i <- 0, changed <- FALSE, pending <- {}, pc <- "done"
 
@@ -266,7 +278,13 @@ ContractOf(x, I, T) ==
                 \/ ~LevelOK(x)
                 \/ "real" \notin LY!RolesAllowed(x.lay)
       AnyF    == Inp \/ MissingC(x) # {} \/ \E f \in F : MK(f)
+      CfgThere == x.pkgfault # "nocfg"                     \* a config file lies where the command looks for it
       Ex     == IF x.argv = "run" THEN (IF AnyF THEN "nonzero" ELSE "zero")
+                \* init (InitCmdContract!InitAllowed): writes iff nothing is at the target path, else reports failure
+                ELSE IF x.argv = "init"
+                     THEN (IF [ok |-> TRUE, after |-> "created"] \in IC!InitAllowed(IF CfgThere THEN "yes" ELSE "no", TRUE) THEN "zero" ELSE "nonzero")
+                \* migrate: a v2 file that can be found and decoded is migrated
+                ELSE IF x.argv = "migrate" THEN (IF CfgThere THEN "zero" ELSE "nonzero")
                 ELSE IF x.argv \in {"badflag", "badcmd"} THEN "nonzero"
                 ELSE IF x.argv = "showconfig" /\ (x.pkgfault \in {"nocfg", "unknown-key"} \/ "real" \notin LY!RolesAllowed(x.lay)) THEN "nonzero"
                 ELSE "zero"
@@ -278,6 +296,9 @@ ContractOf(x, I, T) ==
                                  structs |-> {<<i.iface, i.struct>> : i \in Of(f)}]],
       fsegs    |-> [f \in F |-> (CHOOSE i \in Of(f) : TRUE).fsegs],
       anyfailure |-> AnyF, exit |-> Ex, missing |-> MissingC(x),
+      \* the one path init / migrate may create (location ids as in MigrateContract!OutLocId), what loading it must yield
+      cmdout |-> IF x.argv = "init" THEN {"config"} ELSE IF x.argv = "migrate" THEN {MG!OutLocId([out |-> x.mout])} ELSE {},
+      initload |-> IC!LoadExpect(IF x.argv = "init" /\ ~CfgThere THEN P("a") ELSE IC!None),
       wellformed |-> /\ \A f \in F : \A i, j \in Of(f) : /\ i.force = j.force /\ i.fmt = j.fmt /\ i.req = j.req
                                                             /\ (i # j /\ Uni(f)) => i.struct # j.struct
                      \* "no validation without require" vs "data is validated": both are accepted by Schema.tla ("either")
@@ -321,8 +342,10 @@ NoSnap == [set |-> FALSE, tbl |-> {}, mcfg |-> << >>]
 Cx0 == [recq |-> << >>, subq |-> << >>, curp |-> "", ifq |-> << >>, curL |-> "", entq |-> << >>, curn |-> ""]
 Rs0 == [vals |-> << >>, data |-> << >>, sraw |-> << >>, i |-> 0, ret |-> "-"]
 Others == {"src", "config", "unrelated"}
-Fs0 == [k \in cc.files \cup w.occ \cup Others |->
-          IF k \in w.occ THEN [kind |-> "user"] ELSE IF k \in Others THEN [kind |-> "keep"] ELSE [kind |-> "absent"]]
+Fs0 == [k \in cc.files \cup w.occ \cup Others \cup cc.cmdout |->
+          IF k \in w.occ THEN [kind |-> "user"]
+          ELSE IF k = "config" THEN (IF w.pkgfault = "nocfg" THEN [kind |-> "absent"] ELSE [kind |-> "keep"])
+          ELSE IF k \in Others THEN [kind |-> "keep"] ELSE [kind |-> "absent"]]
 ById(path) == CHOOSE p \in Pkgs : P(p) = path
 Own(n) == IF n \in DOMAIN w.cfg THEN w.cfg[n] ELSE << >>
 ImplCfgDir == LY!ImplConfigDirDenotes(w.lay)
@@ -343,8 +366,27 @@ Start ==
   /\ pc = "start"
   /\ CASE w.argv \in {"help", "version"} -> out' = w.argv /\ xc' = 0 /\ pc' = "proc"
        [] w.argv \in {"badflag", "badcmd"} -> out' = "usage-error" /\ xc' = 1 /\ pc' = "proc"
+       [] w.argv \in {"init", "migrate"} -> pc' = w.argv /\ UNCHANGED <<out, xc>>
        [] OTHER -> pc' = "load" /\ UNCHANGED <<out, xc>>
   /\ SkKeep /\ UNCHANGED <<w, cc, mcfg, pend, cx, rs, cnode, fs, mk, snap, anyfail>>
+
+\* `mockery init <package>`, init.go:36-94: O_CREATE|O_EXCL on the target (InitCmd.tla checks path states, --config, races)
+InitCmd ==
+  /\ pc = "init"
+  /\ IF fs["config"].kind = "absent"
+     THEN fs' = [fs EXCEPT !["config"] = [kind |-> "initcfg", pkg |-> P("a")]] /\ xc' = 0
+     ELSE xc' = 1 /\ UNCHANGED fs
+  /\ out' = "init" /\ pc' = "proc"
+  /\ SkKeep /\ UNCHANGED <<w, cc, mcfg, pend, cx, rs, cnode, mk, snap, anyfail>>
+
+\* `mockery migrate`, migrate.go:130-: finds the v2 file like a run finds its config, writes --outfile (Migrate.tla checks the mapping)
+MigrateCmd ==
+  /\ pc = "migrate"
+  /\ IF fs["config"].kind = "absent"
+     THEN xc' = 1 /\ UNCHANGED fs
+     ELSE fs' = [fs EXCEPT ![MG!OutLocId([out |-> w.mout])] = [kind |-> "migrated"]] /\ xc' = 0
+  /\ out' = "migrate" /\ pc' = "proc"
+  /\ SkKeep /\ UNCHANGED <<w, cc, mcfg, pend, cx, rs, cnode, mk, snap, anyfail>>
 
 \* failure before / outside Run's per-file loop: logFatalErr (default command) or a plain error return (showconfig)
 Fail == IF w.argv = "run" THEN pc' = "die" /\ UNCHANGED xc ELSE pc' = "proc" /\ xc' = 1
@@ -647,12 +689,12 @@ ProcExit ==
   /\ UNCHANGED <<w, cc, mcfg, pend, cx, rs, cnode, fs, mk, out, xc, snap, anyfail>>
 Tree ==
   /\ pc = "tree"
-  /\ Sk([ev |-> "Tree", changed |-> SetToSeq(Changed)])
+  /\ Sk([ev |-> "Tree", changed |-> SetToSeq(Changed \ cc.cmdout)])      \* (init / migrate emit no Write event)
   /\ pc' = "done"
   /\ UNCHANGED <<w, cc, mcfg, pend, cx, rs, cnode, fs, mk, out, xc, snap, anyfail>>
 Done == pc = "done" /\ UNCHANGED vars
 
-Next == \/ Start \/ LoadSources \/ InitBegin \/ (\E p \in Pkgs : InitPkg(p)) \/ SortRecursive \/ Recursive \/ SubStep \/ InitEnd
+Next == \/ Start \/ InitCmd \/ MigrateCmd \/ LoadSources \/ InitBegin \/ (\E p \in Pkgs : InitPkg(p)) \/ SortRecursive \/ Recursive \/ SubStep \/ InitEnd
         \/ ShowConfig \/ RunStart \/ Parse \/ (\E p \in Pkgs : NextPkg(p)) \/ Select \/ Entry \/ RIter \/ RLoop \/ Resolved \/ Collect
         \/ (\E f \in DOMAIN colls : FileBegin(f)) \/ Stage \/ Generated
         \/ Failpoint("mkdir", "mkdir") \/ Failpoint("stat", "stat") \/ Failpoint("write", "write")
@@ -669,7 +711,7 @@ IsRun == w.argv = "run"
 OutcomeOf(f) == IF f \notin DOMAIN fs THEN "other"
                 ELSE IF fs[f] = Fs0[f] THEN "old" ELSE IF fs[f] = cc.new[f] THEN "new" ELSE "other"
 
-TypeOK == /\ xc \in {-1, 0, 1} /\ \A k \in DOMAIN fs : fs[k].kind \in {"absent", "user", "keep", "new"}
+TypeOK == /\ xc \in {-1, 0, 1} /\ \A k \in DOMAIN fs : fs[k].kind \in {"absent", "user", "keep", "new", "initcfg", "migrated"}
 \* selection o configuration o template resolution o pipeline: status 0 means that for every (package, interface,
 \* entry) the contract selects, the file at the path the contract's effective dir / filename give holds new content
 \* with exactly the contract's (interface, struct name) pairs for that path
@@ -680,7 +722,7 @@ ZeroMeansContractDelivered ==
 \* every path holds its old content or the contract's complete new content -- in every state, whatever failed
 OldOrContractNew == IsRun => \A f \in cc.files : OutcomeOf(f) \in {"old", "new"}
 \* nothing outside the designated paths ever changes; directories are only created above designated paths
-Frame == /\ \A k \in DOMAIN fs : k \notin cc.files => (k \in DOMAIN Fs0 /\ fs[k] = Fs0[k])
+Frame == /\ \A k \in DOMAIN fs : k \notin cc.files \cup cc.cmdout => (k \in DOMAIN Fs0 /\ fs[k] = Fs0[k])
          /\ mk \subseteq {ParentKey(cc.fsegs[f]) : f \in cc.files}
 \* a package / interface the contract does not select contributes no mock to any file
 UnselectedContributeNothing ==
@@ -703,7 +745,17 @@ InitializeAsContract == snap.set /\ ConfigUsable => TableAsContract(snap.tbl, sn
 \* `showconfig` shows exactly what a run uses
 ShowconfigShowsWhatRunUses == Finished /\ w.argv = "showconfig" /\ xc = 0 => TableAsContract(out.tbl, out.mcfg)
 \* only the default command writes anything
-OtherCommandsTouchNothing == ~IsRun => fs = Fs0 /\ mk = {}
+\* ... and init / migrate exactly one designated file
+OtherCommandsTouchNothing == ~IsRun => mk = {} /\ \A k \in DOMAIN fs : k \notin cc.cmdout => fs[k] = Fs0[k]
+\* init: InitCmdContract!InitAllowed -- an existing target is never modified and failure is reported
+InitAsContract ==
+  Finished /\ w.argv = "init" =>
+     /\ [ok |-> xc = 0, after |-> IF fs["config"] = Fs0["config"] THEN "same" ELSE "created"]
+          \in IC!InitAllowed(IF w.pkgfault = "nocfg" THEN "no" ELSE "yes", TRUE)
+     /\ fs["config"] # Fs0["config"] => fs["config"] = [kind |-> "initcfg", pkg |-> cc.initload.keys[1]]
+\* migrate: MigrateContract!FilesOK -- exactly the requested output appears, never the input
+MigrateAsContract ==
+  Finished /\ w.argv = "migrate" /\ xc = 0 => MG!FilesOK([out |-> w.mout], Changed)
 \* defaults < MOCKERY_* < file < flags: the effective top-level value is the layered one (log level, environment vs
 \* flag have no other influence: the contract operators never read them, except that an unknown level is an invalid input)
 SourcesLayered == "root" \in DOMAIN mcfg /\ ConfigUsable => mcfg["root"] = cc.top
